@@ -1,4 +1,5 @@
 import BufModel.Digest
+import BufModel.DigestHistory
 import Driver.Util
 /-
   Line protocol for C08 (module digests, manifests).  Arbitrary strings / bytes are hex-encoded
@@ -15,6 +16,12 @@ import Driver.Util
     b5     <table> <bucket> <deps>       -> ok <digest string> | err <tag> | hmiss <hex>
     b4     <table> <bucket> <obj> <obj>  -> ok <digest string> | err <tag> | hmiss <hex>
     mset   <table> <mods> <i>            -> ok <digest string> | err <tag> | hmiss <hex> | bad-numbering
+    hist   <table> <op|op|...>           -> the answers of the healthy steps joined by '|' (Section H: a whole
+                                            history on one line; the model answers every step from the step alone)
+       op = C;<contenthex>            healthy content digest      -> <digesthex> | hmiss <hex>
+          | P;<prefixhex>             read failed after the prefix was absorbed (no answer)
+          | D;<bucket>;<deps>         healthy Module.Digest(b5)   -> ok <digest string> | err <tag> | hmiss <hex>
+          | F;<bucket>;<deps>;<pathhex>;<k>   Module.Digest(b5) whose read of <path> failed after k bytes (no answer)
   bucket = path=content,...   deps = type:hex,...   obj = name=content | -
   mods = L;bucket;i.j.k | R;bucket;deps  joined by '|'
 -/
@@ -144,6 +151,33 @@ def buildNodes : List (Str × Digest) → Except MErr (List FileNode)
       | .error e => .error e
       | .ok ns => .ok (n :: ns)
 
+open BufModel.DigestHistory in
+def decOp (s : String) : Option Op :=
+  match s.splitOn ";" with
+  | ["C", c] => (decBytes c).map Op.content
+  | ["P", c] => (decBytes c).map Op.contentFail
+  | ["D", b, ds] => do
+    let bk ← decBucket b
+    let deps ← (listOf ds ",").mapM decMDigest
+    pure (Op.b5 bk deps)
+  | ["F", b, ds, p, k] => do
+    let bk ← decBucket b
+    let deps ← (listOf ds ",").mapM decMDigest
+    let path ← hexDecode p
+    let n ← k.toNat?
+    pure (Op.b5Fail bk deps (s2l path) n)
+  | _ => none
+
+open BufModel.DigestHistory in
+/-- the printed answer of one step (`none` for a failed computation: it has no digest) -/
+def showAns (t : List (Bytes × Digest)) : Op → Ans → Option String
+  | _, .failed => none
+  | .content c, .digest d => some (match firstMiss t [c] with
+      | some x => "hmiss " ++ encBytes x
+      | none => encBytes d.val)
+  | .b5 b deps, .mdigest r => some (showMD t (b5Inputs (tableH t) b deps) r)
+  | _, _ => some "bad-answer"
+
 def handle : List String → String
   | ["node", a] => match hexDecode a with
       | some s => showNode (parseFileNode (s2l s)) | none => "bad-op"
@@ -183,6 +217,13 @@ def handle : List String → String
         if !topoNumbered mods then "bad-numbering" else
         showMD tb (msetInputs (tableH tb) mods) (moduleDigest (tableH tb) mods (mods.length + 1) k)
       | _, _, _ => "bad-op"
+  | ["hist", t, os] => match decTable t, (listOf os "|").mapM decOp with
+      | some tb, some ops =>
+        -- `answers` = `run` from any process state under any state evolution
+        -- (`BufProofs.C08.digest_history_independent`)
+        "|".intercalate ((ops.zip (BufModel.DigestHistory.answers (tableH tb) ops)).filterMap
+          (fun oa => showAns tb oa.1 oa.2))
+      | _, _ => "bad-op"
   | _ => "bad-op"
 
 def run : IO Unit := runLines handle
